@@ -245,7 +245,7 @@ def run(ck, ix, tier):
             else:
                 raise AnalysisError(f"{qual}: unrecognised verdict expression `{norm(v)}` at {where}")
         # the no-context branch must exist: a path from entry to a dimensionality comparison avoiding .to()
-    ck.floor("G-PROV", n_returns, 7, "return statements in the compatibility predicates")
+    ck.floor("G-PROV", n_returns, 4, "return statements in the compatibility predicates")
 
     # dimensionality properties must query the registry for *their own* units
     for mod, qual in (("pint.facets.plain.quantity", "PlainQuantity.dimensionality"),
